@@ -516,9 +516,71 @@ def ordering_world(ctx, is_x, is_y, o):
 # ------------------------------------------------------------------ membership tests (idioms)
 
 
+def seq_equal(prog, t, is_a, is_b, depth=2):
+    """is boolean term t true exactly when a == b (values or sequences)?  True / False (for !=) / None.
+    Spellings: a == b, a.eq(b), a local helper that returns one of these with its parameters bound, and
+    the element-wise form `a.len() == b.len() && a.iter().zip(b).all(|(x, y)| x == y)` (WITHOUT the length
+    test the zip form is a common-prefix test, not equality)."""
+    from engine.analysis import len_of, cmp_operands
+    if t[0] != "call":
+        return None
+    if t[1] in EQ and len(t[2]) == 2:
+        a, b = t[2]
+        if (is_a(a) and is_b(b)) or (is_a(b) and is_b(a)):
+            return EQ[t[1]]
+        return None
+    hb = prog.body(t[1])
+    if hb is None or hb.kind != "fn" or depth <= 0:
+        return None
+    ia = [i for i, x in enumerate(t[2]) if is_a(x)]
+    ib = [i for i, x in enumerate(t[2]) if is_b(x)]
+    if len(ia) != 1 or len(ib) != 1 or ia == ib:
+        return None
+    A, B = ("seq_a",), ("seq_b",)
+    params = {i + 1: x for i, x in enumerate(t[2])}
+    params[ia[0] + 1], params[ib[0] + 1] = A, B
+    c = Ctx(hb, params=params)
+    isA, isB = (lambda x: norm(x) == A), (lambda x: norm(x) == B)
+
+    def len_eq(x):
+        co = cmp_operands(x) if x[0] in ("call", "bin") else None
+        if co is None:
+            return None
+        l, r = len_of(co[1]), len_of(co[2])
+        if l is None or r is None or not ((isA(l) and isB(r)) or (isA(r) and isB(l))):
+            return None
+        rel = cmp_rel(x, lambda u: u == co[1], lambda v: v == co[2])
+        return True if rel == {"="} else (False if rel == {"<", ">"} else None)
+
+    def zip_all(r):
+        if not (r[0] == "call" and r[1].endswith("Iterator::all") and len(r[2]) == 2 and r[2][1][0] == "closure"):
+            return False
+        z = r[2][0]
+        if not (z[0] == "call" and z[1].endswith("Iterator::zip") and len(z[2]) == 2):
+            return False
+        if not ((isA(z[2][0]) and isB(z[2][1])) or (isA(z[2][1]) and isB(z[2][0]))):
+            return False
+        res = closure_result(prog, r[2][1], params={2: ("tuple", (("ex",), ("ey",)))})
+        return res is not None and res[0] == "call" and res[1] in EQ and EQ[res[1]] and {norm(res[2][0]), norm(res[2][1])} == {("ex",), ("ey",)}
+
+    has_len = any(atom[0] == "bool" and len_eq(atom[1]) is not None for _, atom in c.atoms())
+    if has_len:
+        f = lambda val: (lambda x: (val if len_eq(x) is True else ((not val) if len_eq(x) is False else None)))
+        w_ne = c.assume((None, f(False))).settle()
+        w_eq = c.assume((None, f(True))).settle()
+        r_ne, r_eq = w_ne.T.return_term(), w_eq.T.return_term()
+        if r_ne == ("const", "bool", False) and zip_all(r_eq):
+            return True
+        return None
+    r = c.T.return_term()
+    return seq_equal(prog, r, isA, isB, depth - 1)
+
+
 def eq_closure_of(prog, clo, elem_ok):
     """closure |x| x == <elem> (either order; `!=` gives False): returns True for ==, False for !=, None otherwise"""
     res = closure_result(prog, clo, params={2: ("elem",)}) if clo[0] == "closure" else None
+    if res is not None and res[0] == "call" and res[1] not in EQ:
+        return seq_equal(prog, res, lambda x: norm(x) == ("elem",), elem_ok)
     if res is None or res[0] != "call" or res[1] not in EQ:
         return None
     a, b = res[2]
@@ -544,6 +606,14 @@ def membership(prog, t, coll_ok, elem_ok):
         return None
     nm = t[1]
     last = nm.split("::")[-1]
+    coll_ok0 = coll_ok
+
+    def coll_ok(c_):
+        # coll.iter().map(Vec::as_slice) & co.: the same elements seen through a borrow
+        while c_[0] == "call" and c_[1].endswith("Iterator::map") and len(c_[2]) == 2 and c_[2][1][0] == "fn" and c_[2][1][1].split("::")[-1] in ("as_slice", "as_ref", "as_str", "deref", "borrow"):
+            c_ = c_[2][0]
+        return coll_ok0(c_)
+
     if nm in EQ and len(t[2]) == 2:
         # loop form: `for x in coll { if x == e {..} }` — x is the element read by Iterator::next
         for x, y in ((t[2][0], t[2][1]), (t[2][1], t[2][0])):
@@ -563,6 +633,13 @@ def membership(prog, t, coll_ok, elem_ok):
         if x[0] == "call" and x[1].split("::")[-1] in ("position", "find") and "Iterator" in x[1] and len(x[2]) == 2 and coll_ok(x[2][0]) and eq_closure_of(prog, x[2][1], elem_ok) is True:
             return nm.endswith("is_some")
     return None
+
+
+def membership_option(prog, t, coll_ok, elem_ok):
+    """t = coll.iter().find(|x| x == e) / .position(..): an Option that is Some exactly for members"""
+    if t[0] == "call" and t[1].split("::")[-1] in ("find", "position") and "Iterator" in t[1] and len(t[2]) == 2:
+        return membership(prog, ("call", "std::option::Option::is_some", (t,)), coll_ok, elem_ok) is True
+    return False
 
 
 # ------------------------------------------------------------------ integer worlds (P9, exact form over literals)
